@@ -43,6 +43,12 @@ CHECKS = {
  "C16": dict(engine="A+F", technique="property-based robustness testing / grammar-aware mutation fuzzing of the compiler (generated valid texts, dictionary-based token and character mutations, repository grammars as seeds) under catch_unwind; libFuzzer campaign in the thorough tier",
    text="Bounded random exploration: grammar texts over every construct of the grammar language, repository grammars and raw strings, mutated with a 100-entry dictionary (unimplemented operators, groups, reserved names, keywords, dotted names, huge integers, broken literals), x {LR,GLR} x table types x prefer-shift settings x builder type x table layout x lexer type x dot; each text runs through the real Settings::process_grammar (real files in a scratch directory: grammar parsing, table construction, type inference, code and actions generation, dot export) and through the table hook; the result must be Ok or a non-empty error, never a panic.",
    note="Trusted: panics are observed through a panic hook + catch_unwind; signatures are file + source line text + normalised message; two recorded findings (integer constant unwrap) keyed on exact signatures; compile time is not bounded by this check (wall-clock watchdog => inconclusive)."),
+ "C17": dict(engine="C", technique="metamorphic property-based testing over fresh processes (hash seeds), processing orders and interfaces (rcomp command line vs library API) with byte-level comparison of generated files",
+   text="Bounded random exploration: AST-shape-rich generated grammars (incl. names that collide after de-duplication) x random subsets of the rcomp flags; the same command line in 5 fresh processes, the API generating [A,B,A] / [B,A] in one process, and rcomp vs the API configured through the harness's own flag->setter table must all write byte-identical parser / actions / dot files and agree on success.",
+   note="Trusted: the harness's flag table (from rcomp --help and the Settings docs); hash-seed dependence is detected probabilistically (5 processes); order-dependent flag combinations are excluded by construction and counted; rcomp is rebuilt from /repo by ./check."),
+ "C18": dict(engine="C", technique="stateful / model-based property testing: generated edit histories of the actions file interpreted against the real generator, model = list of syn items compared as printed by prettyplease (proptest, whole history shrinks)",
+   text="Bounded random exploration: generated grammars x generated histories (delete generated items, rewrite bodies and types, add user items, regenerate, regenerate twice, change the grammar and regenerate); after every regeneration the real file is compared with the model: every previous item kept in order, new items exactly the missing ones of a fresh forced generation and identical to them, no name defined twice, second regeneration byte-identical.",
+   note="Trusted: syn parsing + prettyplease printing as the item equality (formatting and non-doc comments are documented as not preserved); header items are never deleted; fresh generations that already define a name twice are C11's subject and discarded (counted)."),
 }
 ALL = ["C%02d" % i for i in range(1, 19)]
 
